@@ -87,19 +87,41 @@ UNITS.append(dict(
     tus=[dict(file=TS, include_as='VERIF_TU')], harness='harness/c10_reading.c', defines=['VERIF_MODE=1', 'VERIF_DECODE=1'], replace_calls=RD_RC, timeout=600, expect_s=10,
     functions=RD_FUNCS,
     assumptions=['finder (not part of the check): the decoding branch of do_reading is dead code today; with a decoding mechanism it aborts on `_dbus_assert (length (encoded_incoming) == bytes_read)` when the socket read returns -1 (EAGAIN/error): bytes_read == -1, length == 0']))
-UNITS.append(dict(
-    name='C10.expire_incomplete_n3', props=['C10', 'C13'], kind='B', route='stub', entry='harness', bus=True,
-    tus=[dict(file='bus/connection.c', include_as='VERIF_TU'), dict(file='dbus/dbus-list.c')], harness='harness/c10_expire.c', unwind=5, timeout=900, expect_s=60,
-    must_have=['expire_incomplete: only connections in the incomplete list whose age', 'expire_incomplete: oldest-first list => EVERY', 'expire_incomplete: the expiry timer is re-armed exactly once'],
-    bounds={'incomplete_connections': 3, 'note': 'list of 0..3 links built by the harness; loop of bus_connections_expire_incomplete completely unwound'},
-    functions=[dict(name='bus_connections_expire_incomplete', file='bus/connection.c', status='bounded',
-                    contract='closed => in the list and age >= auth_timeout, at most once; oldest-first list => all such closed; timer re-armed once (-1 / remaining time of the oldest young one)'),
-               dict(name='_dbus_list_get_first_link', file='dbus/dbus-list.c', status='inlined', note='real code'),
-               dict(name='_dbus_get_monotonic_time', file='dbus/dbus-sysdeps-unix.c', status='assumed', note='arbitrary now >= every connection time (monotonic clock)'),
-               dict(name='bus_context_get_auth_timeout', file='bus/bus.c', status='stub', note='arbitrary non-negative limit'),
-               dict(name='dbus_connection_get_data', file='dbus/dbus-connection.c', status='stub', note='the BusConnectionData of that connection (ghost map of 4)'),
-               dict(name='dbus_connection_close', file='dbus/dbus-connection.c', status='stub', note='ghost count per connection; does not re-enter the list (removal happens on dispatch of Disconnected)'),
-               dict(name='bus_expire_timeout_set_interval, bus_context_log', file='bus/expirelist.c, bus/bus.c', status='stub', note='recorded / logging only')],
-    assumptions=['age oracle written with the floating-point expression of bus/expirelist.h (ELAPSED_MILLISECONDS_SINCE): exact integer equivalence is not claimed',
-                 'for the "every old connection is closed" clause: the incomplete list is in oldest-first order (appended with the monotonic time at accept)',
-                 'dbus_connection_close does not modify the incomplete list synchronously']))
+for srt in (1, 0):
+    UNITS.append(dict(
+        name='C10.expire_incomplete_n3' + ('' if srt else '.unsorted'), props=['C10', 'C13'], kind='B', route='stub', entry='harness', bus=True,
+        tus=[dict(file='bus/connection.c', include_as='VERIF_TU'), dict(file='dbus/dbus-list.c')], harness='harness/c10_expire.c', defines=['VERIF_SORTED=%d' % srt],
+        unwind=5, timeout=600, expect_s=10,
+        must_have=['expire_incomplete: only connections in the incomplete list whose age', 'expire_incomplete: oldest-first list => EVERY', 'expire_incomplete: the expiry timer is re-armed exactly once'],
+        bounds={'incomplete_connections': 3,
+                'note': 'list of 0..3 links built by the harness, loop completely unwound; auth_timeout: every non-negative int; connection ages from a fixed catalogue '
+                        + ('(40 000 ms, exactly 30 000 ms, 29 999.999 ms: oldest first)' if srt else '(10 s, 40 s, 20 s: NOT oldest first)')
+                        + '; the exact timer value only for 8 concrete limits (double -> int equivalence does not terminate for symbolic limits), bounded 0..auth_timeout otherwise'},
+        functions=[dict(name='bus_connections_expire_incomplete', file='bus/connection.c', status='bounded',
+                        contract='closed => in the list and age >= auth_timeout, at most once, logged; oldest-first list => all such closed; timer re-armed once (-1 / remaining whole ms of the oldest young one)'),
+                   dict(name='_dbus_list_get_first_link', file='dbus/dbus-list.c', status='inlined', note='real code'),
+                   dict(name='_dbus_get_monotonic_time', file='dbus/dbus-sysdeps-unix.c', status='assumed', note='fixed now >= every connection time (monotonic clock)'),
+                   dict(name='bus_context_get_auth_timeout', file='bus/bus.c', status='stub', note='arbitrary non-negative limit'),
+                   dict(name='dbus_connection_get_data', file='dbus/dbus-connection.c', status='stub', note='the BusConnectionData of that connection (ghost map of 4)'),
+                   dict(name='dbus_connection_close', file='dbus/dbus-connection.c', status='stub', note='ghost count per connection; does not re-enter the list (removal happens on dispatch of Disconnected)'),
+                   dict(name='bus_expire_timeout_set_interval, bus_context_log', file='bus/expirelist.c, bus/bus.c', status='stub', note='recorded / counted')],
+        assumptions=['oracle: integer arithmetic on microseconds (expired <=> age_us >= auth_timeout * 1000), independent of the double expression of bus/expirelist.h',
+                     'for the "every old connection is closed" clause: the incomplete list is in oldest-first order (appended with the monotonic time at accept)',
+                     'dbus_connection_close does not modify the incomplete list synchronously']))
+for strict in (0, 1):
+    UNITS.append(dict(
+        name='C11.F5.recover' + ('_strict' if strict else ''), props=['C11', 'C10'] if not strict else ['C11'], kind='P', route='stub', entry='harness', role='finder' if strict else 'check',
+        tus=[dict(file=TR, include_as='VERIF_TU')], harness='harness/c10_recover.c', defines=['VERIF_STRICT=%d' % strict], timeout=300, expect_s=5,
+        must_have=['recover_unused_bytes (F5): TRUE => the leftover bytes were appended exactly once', 'recover_unused_bytes (F5): FALSE => neither appended nor deleted',
+                   '_dbus_string_copy: at the END of the loader', '_dbus_string_move: at the END of the loader'],
+        functions=[dict(name='recover_unused_bytes', file=TR, status='enforced',
+                        contract='lemma F5, both branches: TRUE => whole (decoded) unused bytes appended once at the end of the loader buffer, then deleted once; FALSE => neither; temporaries freed'),
+                   dict(name='_dbus_string_copy/_dbus_string_move', file='dbus/dbus-string.c', status='replaced', note='contracts enforced by C14.str.copy / C14.str.move (byte level); here their arguments are checked'),
+                   dict(name='_dbus_auth_get_unused_bytes/_delete_unused_bytes/_needs_decoding', file='dbus/dbus-auth.c', status='replaced', note='contracts of C08.unused'),
+                   dict(name='_dbus_auth_decode_data', file='dbus/dbus-auth.c', status='assumed', note='appends the plaintext to the empty temporary or fails leaving it unchanged'),
+                   dict(name='_dbus_message_loader_get_buffer/_return_buffer', file=MSG, status='replaced', note='protocol enforced by C11.F4.loader_buffer'),
+                   dict(name='_dbus_string_init/_free/_get_length', file='dbus/dbus-string.c', status='stub', note='typestate + ghost lengths (C14.str.init_free)')],
+        assumptions=['string lengths <= 2^28 in the harness (no int overflow of the ghost sum)']
+        + (['finder (not part of the check): in the ENCODED branch a failing _dbus_string_move leaves the loader buffer outstanding (no _dbus_message_loader_return_buffer before `goto nomem`); '
+            'the next _dbus_message_loader_get_buffer would abort on `!loader->buffer_outstanding`.  Dead code today: no mechanism has a decode function (C08.find_mech); not replayable natively']
+           if strict else [])))
